@@ -10,6 +10,7 @@ import BleveModel.Drv.C13
 import BleveModel.Drv.C19
 import BleveModel.Drv.C18
 import BleveModel.Drv.C20
+import BleveModel.Drv.Snap
 
 open Bleve.Proto
 
@@ -37,6 +38,7 @@ def main (args : List String) : IO UInt32 := do
   | ["c19"] => loop stdin stdout Bleve.Drv.C19.step; stdout.flush; return 0
   | ["c18"] => loop stdin stdout Bleve.Drv.C18.step; stdout.flush; return 0
   | ["c20"] => loop stdin stdout Bleve.Drv.C20.step; stdout.flush; return 0
+  | ["snap"] => loop stdin stdout Bleve.Drv.Snap.step; stdout.flush; return 0
   | ["c09"] => loop stdin stdout Bleve.Drv.C09.step; stdout.flush; return 0
   | ["c02"] => loop stdin stdout Bleve.Drv.C02.step; stdout.flush; return 0
   | ["c06"] => loop stdin stdout Bleve.Drv.C06.step; stdout.flush; return 0
